@@ -220,6 +220,7 @@ func mkDLN(pp *keygen.LocalPreParams, other *keygen.LocalPreParams, second bool)
 	in.verify = func(c []*big.Int, _ []byte, st []*big.Int) bool { return build(c).Verify(st[0], st[1], st[2]) }
 	in.roundtrip = func() (bool, error) {
 		bz, err := pf.Serialize()
+		clobberSpare(bz)
 		if err != nil {
 			return false, err
 		}
@@ -314,6 +315,7 @@ func mkMod(sk *paillier.PrivateKey, otherN *big.Int, sess []byte) (*proofInst, e
 	in.verify = func(c []*big.Int, s []byte, st []*big.Int) bool { return build(c).Verify(s, st[0]) }
 	in.roundtrip = func() (bool, error) {
 		bz := pf.Bytes()
+		clobberSpare(bz[:])
 		p2, err := modproof.NewProofFromBytes(bz[:])
 		if err != nil {
 			return false, err
@@ -345,6 +347,7 @@ func mkFac(curve string, sk *paillier.PrivateKey, ver *keygen.LocalPreParams, ot
 	}
 	in.roundtrip = func() (bool, error) {
 		bz := pf.Bytes()
+		clobberSpare(bz[:])
 		p2, err := facproof.NewProofFromBytes(bz[:])
 		if err != nil {
 			return false, err
@@ -417,6 +420,7 @@ func mkAlice(curve string, sk *paillier.PrivateKey, ver *keygen.LocalPreParams, 
 	}
 	in.roundtrip = func() (bool, error) {
 		bz := pf.Bytes()
+		clobberSpare(bz[:])
 		p2, err := mta.RangeProofAliceFromBytes(bz[:])
 		if err != nil {
 			return false, err
@@ -533,6 +537,7 @@ func mkBob(curve string, wc bool, skA *paillier.PrivateKey, ver *keygen.LocalPre
 	in.roundtrip = func() (bool, error) {
 		if !wc {
 			bz := pfB.Bytes()
+			clobberSpare(bz[:])
 			p2, err := mta.ProofBobFromBytes(bz[:])
 			if err != nil {
 				return false, err
@@ -540,6 +545,7 @@ func mkBob(curve string, wc bool, skA *paillier.PrivateKey, ver *keygen.LocalPre
 			return p2.Verify(sess, ec, pk, NT, h1, h2, c1, c2), nil
 		}
 		bz := pfWC.Bytes()
+		clobberSpare(bz[:])
 		p2, err := mta.ProofBobWCFromBytes(ec, bz[:])
 		if err != nil {
 			return false, err
@@ -608,4 +614,18 @@ func mkBob(curve string, wc bool, skA *paillier.PrivateKey, ver *keygen.LocalPre
 	}
 	in.altStmts = alt
 	return in, nil
+}
+
+// clobberSpare overwrites the spare capacity behind every wire part - what a caller does that appends a separator or a
+// checksum to a part it was handed (append writes into the spare capacity when there is some). The parts themselves are
+// not touched; if they share a backing array, the later parts are.
+func clobberSpare(parts [][]byte) {
+	for _, p := range parts {
+		if cap(p) > len(p) {
+			sp := p[len(p):cap(p)]
+			for i := range sp {
+				sp[i] = 0xA5
+			}
+		}
+	}
 }
